@@ -495,6 +495,19 @@ pub enum Retain {
     Retained,
 }
 
+/// declaration index of a QoS level (the order `#[derive(PartialOrd)]` uses)
+pub open spec fn qn(q: QoS) -> int { match q { QoS::AtMostOnce => 0, QoS::AtLeastOnce => 1, QoS::ExactlyOnce => 2 } }
+impl vstd::std_specs::cmp::PartialOrdSpecImpl for QoS {
+    open spec fn obeys_partial_cmp_spec() -> bool { true }
+    open spec fn partial_cmp_spec(&self, other: &QoS) -> Option<core::cmp::Ordering> {
+        if qn(*self) < qn(*other) { Some(core::cmp::Ordering::Less) } else if qn(*self) == qn(*other) { Some(core::cmp::Ordering::Equal) } else { Some(core::cmp::Ordering::Greater) }
+    }
+}
+impl PartialOrd for QoS {
+    #[verifier::external_body]
+    fn partial_cmp(&self, other: &QoS) -> (r: Option<core::cmp::Ordering>) { unimplemented!() }
+}
+
 /// MQTT variable byte integer (1..4 bytes, minimal length) — Appendix B of DESIGN.md
 pub open spec fn enc_varint(x: nat) -> Seq<u8>
     decreases x
@@ -2104,6 +2117,7 @@ fn encode_publish<P: ToPayload, E>(
         wf(*final(self)) && compacted(*final(self)),
         r matches Ok((off, len)) ==> final(self).used <= off && off + len <= bv(*final(self)).len() && len >= 2
             && bv(*final(self)).subrange(off as int, off + len) == enc_publish(*header, payload) && framed(enc_publish(*header, payload)),
+        r matches Err(PubError::Session(e)) ==> (e == Error::<E>::Resource(ResourceError::BufferTooSmall) || e is InvalidRequest),
 { proof { reveal(wfs); } 
         self.compact();
         proof {
@@ -3661,6 +3675,11 @@ pub enum Progress {
     Inbound(usize),
 }
 
+/// configuration fields of a Session that no network operation may change
+pub open spec fn cfg_same(a: Session, b: Session) -> bool {
+    a.downgrade_qos == b.downgrade_qos && a.session_expiry_interval == b.session_expiry_interval
+        && a.client_id.text() == b.client_id.text() && a.will == b.will && a.auth == b.auth
+}
 /// the session behind a connection handle
 pub open spec fn cs<'a, 'buf>(c: Connection<'a, 'buf>) -> Session<'buf> { *c.session }
 pub open spec fn conn_inv(c: Connection) -> bool { sess_inv(cs(c)) }
@@ -4013,7 +4032,8 @@ fn handle_disconnect(&mut self)
             && final(self).runtime.maximum_packet_size == old(self).runtime.maximum_packet_size && final(self).runtime.max_qos == old(self).runtime.max_qos
             && final(self).runtime.keepalive_interval == old(self).runtime.keepalive_interval
             && sd_frame(final(self).data, old(self).data)
-            && final(self).data.pending_server_packet_ids@ == old(self).data.pending_server_packet_ids@,
+            && final(self).data.pending_server_packet_ids@ == old(self).data.pending_server_packet_ids@
+            && cfg_same(*final(self), *old(self)),
         rt_ok(old(self).runtime) ==> sess_inv(*final(self)),
 {
 
@@ -4032,7 +4052,7 @@ fn handle_disconnect(&mut self)
         sd_inv(cs(*old(self)).data),
     ensures
         !final(self).live,
-        final(self).io == old(self).io && final(self).event == old(self).event,
+        final(self).io == old(self).io && final(self).event == old(self).event && cfg_same(cs(*final(self)), cs(*old(self))),
         armed(cs(*final(self)).data.outbound, cs(*old(self)).data.outbound),
         cs(*final(self)).runtime.next_ping is None && cs(*final(self)).runtime.ping_timeout is None
             && cs(*final(self)).packet_reader.read_bytes == 0 && cs(*final(self)).packet_reader.packet_length is None
@@ -4063,7 +4083,7 @@ fn set_written(&mut self, packet: FlushedPacket, written: usize, len: usize)
             FlushedPacket::Retained(id) => len == cs(*old(self)).data.outbound.retained@[first_ret(cs(*old(self)).data.outbound.retained@, id)].len,
         },
     ensures
-        final(self).io == old(self).io && final(self).live == old(self).live && final(self).event == old(self).event
+        final(self).io == old(self).io && final(self).live == old(self).live && final(self).event == old(self).event && cfg_same(cs(*final(self)), cs(*old(self)))
             && cs(*final(self)).runtime == cs(*old(self)).runtime
             && cs(*final(self)).packet_reader.read_bytes == cs(*old(self)).packet_reader.read_bytes
             && cs(*final(self)).packet_reader.packet_length == cs(*old(self)).packet_reader.packet_length
@@ -4090,7 +4110,7 @@ fn complete_flush(&mut self, packet: FlushedPacket, now: Instant)
         conn_inv(*old(self)),
         flushed_tracked(cs(*old(self)).data.outbound, packet),
     ensures
-        final(self).io == old(self).io && final(self).live == old(self).live && final(self).event == old(self).event
+        final(self).io == old(self).io && final(self).live == old(self).live && final(self).event == old(self).event && cfg_same(cs(*final(self)), cs(*old(self)))
             && reader_same(cs(*final(self)).packet_reader, cs(*old(self)).packet_reader)
             && sd_frame(cs(*final(self)).data, cs(*old(self)).data)
             && cs(*final(self)).data.pending_server_packet_ids@ == cs(*old(self)).data.pending_server_packet_ids@,
@@ -4142,7 +4162,7 @@ async fn flush_current(
         same_inflight(cs(*final(self)).data.outbound, cs(*old(self)).data.outbound) && cs(*final(self)).runtime.send_quota == cs(*old(self)).runtime.send_quota,
         sd_frame(cs(*final(self)).data, cs(*old(self)).data)
             && cs(*final(self)).data.pending_server_packet_ids@ == cs(*old(self)).data.pending_server_packet_ids@
-            && final(self).event == old(self).event,
+            && final(self).event == old(self).event && cfg_same(cs(*final(self)), cs(*old(self))),
         cs(*final(self)).runtime.maximum_packet_size == cs(*old(self)).runtime.maximum_packet_size
             && cs(*final(self)).runtime.max_send_quota == cs(*old(self)).runtime.max_send_quota
             && cs(*final(self)).runtime.max_qos == cs(*old(self)).runtime.max_qos
@@ -4200,7 +4220,7 @@ async fn perform_outbound_step(
         }),
         sd_frame(cs(*final(self)).data, cs(*old(self)).data)
             && cs(*final(self)).data.pending_server_packet_ids@ == cs(*old(self)).data.pending_server_packet_ids@
-            && final(self).event == old(self).event && final(self).io.inbound@ == old(self).io.inbound@,
+            && final(self).event == old(self).event && cfg_same(cs(*final(self)), cs(*old(self))) && final(self).io.inbound@ == old(self).io.inbound@,
         same_inflight(cs(*final(self)).data.outbound, cs(*old(self)).data.outbound) && cs(*final(self)).runtime.send_quota == cs(*old(self)).runtime.send_quota,
         cs(*final(self)).runtime.maximum_packet_size == cs(*old(self)).runtime.maximum_packet_size
             && cs(*final(self)).runtime.max_send_quota == cs(*old(self)).runtime.max_send_quota
@@ -4337,7 +4357,7 @@ fn maybe_queue_pingreq(&mut self, now: Instant) -> (r: Result<(), Error<IoErr>>)
     requires
         conn_inv(*old(self)),
     ensures
-        final(self).io == old(self).io && final(self).live == old(self).live && final(self).event == old(self).event
+        final(self).io == old(self).io && final(self).live == old(self).live && final(self).event == old(self).event && cfg_same(cs(*final(self)), cs(*old(self)))
             && cs(*final(self)).runtime == cs(*old(self)).runtime && reader_same(cs(*final(self)).packet_reader, cs(*old(self)).packet_reader)
             && sd_frame(cs(*final(self)).data, cs(*old(self)).data)
             && cs(*final(self)).data.pending_server_packet_ids@ == cs(*old(self)).data.pending_server_packet_ids@,
@@ -4378,7 +4398,7 @@ async fn service_outbound_once(&mut self, now: Instant) -> (r: Result<bool, Erro
         r matches Ok(b) ==> !b ==> final(self).io == old(self).io && next_step_spec(cs(*final(self)).data.outbound) is None,
         sd_frame(cs(*final(self)).data, cs(*old(self)).data)
             && cs(*final(self)).data.pending_server_packet_ids@ == cs(*old(self)).data.pending_server_packet_ids@
-            && final(self).event == old(self).event && final(self).io.inbound@ == old(self).io.inbound@,
+            && final(self).event == old(self).event && cfg_same(cs(*final(self)), cs(*old(self))) && final(self).io.inbound@ == old(self).io.inbound@,
         same_inflight(cs(*final(self)).data.outbound, cs(*old(self)).data.outbound) && cs(*final(self)).runtime.send_quota == cs(*old(self)).runtime.send_quota,
         conn_inv(*final(self)),
 {
@@ -4403,7 +4423,7 @@ async fn service(&mut self, now: Instant) -> (r: Result<bool, Error<IoErr>>)
         r matches Ok(b) ==> !b ==> final(self).io == old(self).io && next_step_spec(cs(*final(self)).data.outbound) is None,
         sd_frame(cs(*final(self)).data, cs(*old(self)).data)
             && cs(*final(self)).data.pending_server_packet_ids@ == cs(*old(self)).data.pending_server_packet_ids@
-            && final(self).event == old(self).event && final(self).io.inbound@ == old(self).io.inbound@,
+            && final(self).event == old(self).event && cfg_same(cs(*final(self)), cs(*old(self))) && final(self).io.inbound@ == old(self).io.inbound@,
         same_inflight(cs(*final(self)).data.outbound, cs(*old(self)).data.outbound) && cs(*final(self)).runtime.send_quota == cs(*old(self)).runtime.send_quota,
         conn_inv(*final(self)),
 {
@@ -4433,7 +4453,7 @@ async fn read_packet(&mut self) -> (r: Result<(), Error<IoErr>>)
                 cs(*final(self)).packet_reader.read_bytes as int, cs(*old(self)).packet_reader.read_bytes as int),
         sd_frame(cs(*final(self)).data, cs(*old(self)).data)
             && cs(*final(self)).data.pending_server_packet_ids@ == cs(*old(self)).data.pending_server_packet_ids@
-            && final(self).event == old(self).event,
+            && final(self).event == old(self).event && cfg_same(cs(*final(self)), cs(*old(self))),
         conn_inv(*final(self)),
 {
         if !self.live {
@@ -4455,7 +4475,7 @@ fn process_received_packet(&mut self) -> (r: Result<Option<usize>, Error<IoErr>>
     requires
         conn_inv(*old(self)),
     ensures
-        final(self).io == old(self).io && final(self).event == old(self).event,
+        final(self).io == old(self).io && final(self).event == old(self).event && cfg_same(cs(*final(self)), cs(*old(self))),
         final(self).live ==> old(self).live,
         !reader_avail(cs(*old(self)).packet_reader) ==> r == Ok::<Option<usize>, Error<IoErr>>(None) && *final(self).session == *old(self).session && final(self).live == old(self).live,
         reader_avail(cs(*old(self)).packet_reader) ==> cs(*final(self)).packet_reader.read_bytes == 0 && cs(*final(self)).packet_reader.packet_length is None
@@ -4554,7 +4574,7 @@ async fn flush_outbound(&mut self) -> (r: Result<(), Error<IoErr>>)
         r matches Err(e) ==> e is Disconnected ==> !old(self).live,
         sd_frame(cs(*final(self)).data, cs(*old(self)).data)
             && cs(*final(self)).data.pending_server_packet_ids@ == cs(*old(self)).data.pending_server_packet_ids@
-            && final(self).event == old(self).event && final(self).io.inbound@ == old(self).io.inbound@
+            && final(self).event == old(self).event && cfg_same(cs(*final(self)), cs(*old(self))) && final(self).io.inbound@ == old(self).io.inbound@
             && (reader_same(cs(*final(self)).packet_reader, cs(*old(self)).packet_reader) || !final(self).live),
         same_inflight(cs(*final(self)).data.outbound, cs(*old(self)).data.outbound) && cs(*final(self)).runtime.send_quota == cs(*old(self)).runtime.send_quota,
         cs(*final(self)).runtime.maximum_packet_size == cs(*old(self)).runtime.maximum_packet_size
@@ -4571,7 +4591,7 @@ async fn flush_outbound(&mut self) -> (r: Result<(), Error<IoErr>>)
                 self.live == old(self).live,
                 sd_frame(cs(*self).data, cs(*old(self)).data),
                 cs(*self).data.pending_server_packet_ids@ == cs(*old(self)).data.pending_server_packet_ids@,
-                self.event == old(self).event, self.io.inbound@ == old(self).io.inbound@,
+                self.event == old(self).event && cfg_same(cs(*self), cs(*old(self))), self.io.inbound@ == old(self).io.inbound@,
                 reader_same(cs(*self).packet_reader, cs(*old(self)).packet_reader),
                 same_inflight(cs(*self).data.outbound, cs(*old(self)).data.outbound),
                 cs(*self).runtime.send_quota == cs(*old(self)).runtime.send_quota,
@@ -4602,7 +4622,7 @@ async fn drive_packet(&mut self) -> (r: Result<Progress, Error<IoErr>>)
         r matches Ok(Progress::Idle) ==> final(self).io == old(self).io && next_step_spec(cs(*final(self)).data.outbound) is None
             && !reader_avail(cs(*final(self)).packet_reader),
         r matches Ok(Progress::Advanced) ==> next_step_spec(cs(*final(self)).data.outbound) is None && !reader_avail(cs(*final(self)).packet_reader),
-        sd_frame(cs(*final(self)).data, cs(*old(self)).data) && final(self).event == old(self).event,
+        sd_frame(cs(*final(self)).data, cs(*old(self)).data) && final(self).event == old(self).event && cfg_same(cs(*final(self)), cs(*old(self))),
         conn_inv(*final(self)),
 {
         if !self.live {
@@ -4613,7 +4633,7 @@ async fn drive_packet(&mut self) -> (r: Result<Progress, Error<IoErr>>)
             invariant
                 conn_inv(*self), self.live, old(self).live,
                 !advanced ==> self.io == old(self).io,
-                sd_frame(cs(*self).data, cs(*old(self)).data), self.event == old(self).event,
+                sd_frame(cs(*self).data, cs(*old(self)).data), self.event == old(self).event && cfg_same(cs(*self), cs(*old(self))),
 {
             if self.session.packet_reader.packet_available() {
                 match (match self.process_received_packet() { Ok(__v) => __v, Err(__e) => return Err(From::from(__e)) }) {
@@ -4674,14 +4694,14 @@ async fn wait_for_progress(&mut self) -> (r: Result<Progress, Error<IoErr>>)
         !(r matches Ok(Progress::Idle)),
         r is Ok ==> final(self).live,
         r matches Ok(Progress::Inbound(n)) ==> decodable(cs(*final(self)), n),
-        sd_frame(cs(*final(self)).data, cs(*old(self)).data) && final(self).event == old(self).event,
+        sd_frame(cs(*final(self)).data, cs(*old(self)).data) && final(self).event == old(self).event && cfg_same(cs(*final(self)), cs(*old(self))),
         conn_inv(*final(self)),
 {
         loop 
             invariant
                 conn_inv(*self), self.live ==> old(self).live,
                 !old(self).live ==> self.io == old(self).io && *self.session == *old(self).session && !self.live,
-                sd_frame(cs(*self).data, cs(*old(self)).data), self.event == old(self).event,
+                sd_frame(cs(*self).data, cs(*old(self)).data), self.event == old(self).event && cfg_same(cs(*self), cs(*old(self))),
 {
             match (match self.drive_packet().await { Ok(__v) => __v, Err(__e) => return Err(From::from(__e)) }) {
                 Progress::Inbound(packet_length) => {
@@ -4767,7 +4787,7 @@ async fn recv(&mut self) -> (r: Result<InboundPublish<'_>, Error<IoErr>>)
                 cs(*final(self)).packet_reader.read_bytes as int, cs(*old(self)).packet_reader.read_bytes as int) || !final(self).live,
             sd_frame(cs(*final(self)).data, cs(*old(self)).data)
                 && cs(*final(self)).data.pending_server_packet_ids@ == cs(*old(self)).data.pending_server_packet_ids@
-                && final(self).event == old(self).event,
+                && final(self).event == old(self).event && cfg_same(cs(*final(self)), cs(*old(self))),
             conn_inv(*final(self)),
     { unimplemented!() }
 }
@@ -5138,6 +5158,16 @@ pub proof fn lemma_len_of_new(o4: Outbound, o3: Outbound, id: u16, offset: usize
     lemma_first_ret(o4.retained@, id, n);
 }
 
+/// C19: the QoS actually used (auto-downgrade to the broker's Maximum QoS when enabled)
+pub open spec fn eff_qos(s: Session, q: QoS) -> QoS {
+    match s.runtime.max_qos { Some(m) => if s.downgrade_qos && qn(q) > qn(m) { m } else { q }, None => q }
+}
+pub open spec fn session_can_publish(s: Session, qos: QoS) -> bool {
+    if qos == QoS::AtMostOnce { bv(s.data.outbound).len() - total_len(s.data.outbound) >= MAX_FIXED_HEADER_SIZE }
+    else { s.runtime.send_quota != 0 && s.data.outbound.retained@.len() < MAX_RETAINED
+        && bv(s.data.outbound).len() - total_len(s.data.outbound) >= MAX_FIXED_HEADER_SIZE }
+}
+
 impl<'a, 'buf> Connection<'a, 'buf> {
 fn require_retained_slot(&self) -> (r: Result<(), Error<IoErr>>)
     ensures
@@ -5258,7 +5288,7 @@ async fn subscribe(
             && !in_use(cs(*old(self)).data.outbound, op.packet_id),
         cs(*final(self)).runtime.send_quota == cs(*old(self)).runtime.send_quota,
         sd_frame_gen(cs(*final(self)).data, cs(*old(self)).data),
-        final(self).event == old(self).event,
+        final(self).event == old(self).event && cfg_same(cs(*final(self)), cs(*old(self))),
         cs(*final(self)).data.pending_server_packet_ids@ == cs(*old(self)).data.pending_server_packet_ids@,
         conn_inv(*final(self)),
 {
@@ -5340,7 +5370,7 @@ async fn unsubscribe(
             && !in_use(cs(*old(self)).data.outbound, op.packet_id),
         cs(*final(self)).runtime.send_quota == cs(*old(self)).runtime.send_quota,
         sd_frame_gen(cs(*final(self)).data, cs(*old(self)).data),
-        final(self).event == old(self).event,
+        final(self).event == old(self).event && cfg_same(cs(*final(self)), cs(*old(self))),
         cs(*final(self)).data.pending_server_packet_ids@ == cs(*old(self)).data.pending_server_packet_ids@,
         conn_inv(*final(self)),
 {
@@ -5395,6 +5425,171 @@ async fn unsubscribe(
             packet_id,
             self.session.data.generation(),
         ))
+    }
+
+fn can_publish(&self, qos: QoS) -> (r: bool)
+    requires
+        conn_inv(*self),
+    ensures
+        r == (self.live && session_can_publish(cs(*self), qos)),
+{
+        self.live && self.session.can_publish(qos)
+    }
+
+fn is_connected(&self) -> (r: bool)
+    ensures
+        r == self.live,
+{
+        self.live
+    }
+
+#[verifier::rlimit(100)]
+async fn publish<P>(
+        &mut self,
+        publication: Publication<'_, P>,
+    ) -> (r: Result<Option<Op>, PubError<P::Error, IoErr>>)
+where
+        P: ToPayload,
+    requires
+        conn_inv(*old(self)),
+    ensures
+        !old(self).live ==> r == Err::<Option<Op>, PubError<P::Error, IoErr>>(PubError::Session(Error::Disconnected)) && final(self).io == old(self).io && *final(self).session == *old(self).session,
+        final(self).live ==> old(self).live,
+        r matches Err(PubError::Session(e)) ==> (e is Transport || e is Disconnected) ==> !final(self).live,
+        (old(self).live && !props_valid(publication.properties, PropertyContext::Publish)) ==> r is Err,
+        r matches Err(PubError::Session(e)) ==> (e is InvalidRequest || e is NotReady) ==>
+            same_inflight(cs(*final(self)).data.outbound, cs(*old(self)).data.outbound)
+            && cs(*final(self)).runtime.send_quota == cs(*old(self)).runtime.send_quota && final(self).live == old(self).live,
+        r matches Err(PubError::Payload(_)) ==> same_inflight(cs(*final(self)).data.outbound, cs(*old(self)).data.outbound)
+            && cs(*final(self)).runtime.send_quota == cs(*old(self)).runtime.send_quota && final(self).live == old(self).live,
+        ret_sig(cs(*final(self)).data.outbound.retained@) == ret_sig(cs(*old(self)).data.outbound.retained@)
+            || (ret_sig(cs(*final(self)).data.outbound.retained@).len() == ret_sig(cs(*old(self)).data.outbound.retained@).len() + 1
+                && ret_sig(cs(*final(self)).data.outbound.retained@).drop_last() == ret_sig(cs(*old(self)).data.outbound.retained@)),
+        rel_sig(cs(*final(self)).data.outbound.pending_release@) == rel_sig(cs(*old(self)).data.outbound.pending_release@),
+        if ret_sig(cs(*final(self)).data.outbound.retained@) == ret_sig(cs(*old(self)).data.outbound.retained@)
+            { cs(*final(self)).runtime.send_quota == cs(*old(self)).runtime.send_quota }
+        else { cs(*old(self)).runtime.send_quota >= 1 && cs(*final(self)).runtime.send_quota == cs(*old(self)).runtime.send_quota - 1 },
+        r matches Ok(None) ==> eff_qos(cs(*old(self)), publication.qos) == QoS::AtMostOnce && final(self).live
+            && ret_sig(cs(*final(self)).data.outbound.retained@) == ret_sig(cs(*old(self)).data.outbound.retained@),
+        r matches Ok(Some(op)) ==> eff_qos(cs(*old(self)), publication.qos) != QoS::AtMostOnce
+            && op.kind == (if eff_qos(cs(*old(self)), publication.qos) == QoS::ExactlyOnce { OpKind::PublishExactlyOnce } else { OpKind::PublishAtLeastOnce })
+            && op.packet_id != 0 && op.generation == cs(*final(self)).data.generation && final(self).live
+            && has_ret(cs(*final(self)).data.outbound.retained@, op.packet_id)
+            && !in_use(cs(*old(self)).data.outbound, op.packet_id)
+            && ret_sig(cs(*final(self)).data.outbound.retained@) != ret_sig(cs(*old(self)).data.outbound.retained@),
+        r matches Ok(Some(op)) ==> !too_large(cs(*final(self)).runtime.maximum_packet_size,
+            cs(*final(self)).data.outbound.retained@[first_ret(cs(*final(self)).data.outbound.retained@, op.packet_id)].len),
+        sd_frame_gen(cs(*final(self)).data, cs(*old(self)).data) && final(self).event == old(self).event && cfg_same(cs(*final(self)), cs(*old(self)))
+            && cs(*final(self)).data.pending_server_packet_ids@ == cs(*old(self)).data.pending_server_packet_ids@,
+        conn_inv(*final(self)),
+{
+        if !self.live {
+            return Err(Error::Disconnected.into());
+        }
+        (match self.flush_outbound().await { Ok(__v) => __v, Err(__e) => return Err(From::from(__e)) });
+        let ghost o1 = cs(*self).data.outbound;
+        let ghost q1 = cs(*self).runtime.send_quota;
+
+        let Publication {
+            topic,
+            properties,
+            qos,
+            payload,
+            retain,
+        } = publication;
+        if !properties.valid_for(PropertyContext::Publish) {
+            return Err(Error::InvalidRequest.into());
+        }
+        let qos = match self.session.runtime.max_qos {
+            Some(max_qos) if self.session.downgrade_qos && qos > max_qos => max_qos,
+            _ => qos,
+        };
+        let packet_id = (if qos > QoS::AtMostOnce { Some(self.session.data.next_packet_id()) } else { None });
+        let header = PublishHeader {
+            topic: Utf8String(topic),
+            packet_id,
+            properties,
+            retain,
+            qos,
+            dup: false,
+        };
+        if packet_id.is_some() {
+            (match self.require_retained_slot() { Ok(__v) => __v, Err(__e) => return Err(From::from(__e)) });
+        }
+
+        if !self.can_publish(qos) {
+            return Err(Error::NotReady.into());
+        }
+
+        if let Some(packet_id) = packet_id {
+            let (offset, len) = (match self
+                .session
+                .data
+                .outbound
+                .encode_publish(&header, payload) { Ok(__v) => __v, Err(__e) => return Err(From::from(__e)) });
+            let ghost o3 = cs(*self).data.outbound;
+            proof { lemma_inflight_entries(o3, o1); }
+
+            (match self.session.runtime.require_packet_size(len) { Ok(__v) => __v, Err(__e) => return Err(From::from(__e)) });
+            (match self.session
+                .data
+                .outbound
+                .retain_packet(packet_id, offset, len) { Ok(__v) => __v, Err(__e) => return Err(From::from(__e)) });
+            let ghost o4 = cs(*self).data.outbound;
+            proof {
+                lemma_retained_pushed(o4, o3, o1, packet_id, offset, len);
+                lemma_sig_props(o1, cs(*old(self)).data.outbound, packet_id);
+                assert(ret_sig(o4.retained@).drop_last() =~= ret_sig(o3.retained@));
+                lemma_first_ret_bounds(o4.retained@, packet_id);
+            }
+
+            self.session.runtime.send_quota = self.session.runtime.send_quota.saturating_sub(1);
+
+            (match self.flush_outbound().await { Ok(__v) => __v, Err(__e) => return Err(From::from(__e)) });
+            let kind = if qos == QoS::ExactlyOnce {
+                OpKind::PublishExactlyOnce
+            } else {
+                OpKind::PublishAtLeastOnce
+            };
+            proof {
+                lemma_sig_props(cs(*self).data.outbound, o4, packet_id);
+                lemma_first_ret_bounds(o4.retained@, packet_id);
+                lemma_len_of_new(o4, o3, packet_id, offset, len);
+            }
+
+            return Ok(Some(Op::new(
+                kind,
+                packet_id,
+                self.session.data.generation(),
+            )));
+        }
+
+        let packet = (match MqttSerializer::encode_publish(
+            self.session.data.outbound.scratch_space(),
+            &header,
+            payload,
+        ) { Ok(__v) => __v, Err(__e) => return Err(From::from(__e)) });
+        (match self.session.runtime.require_packet_size(packet.len()) { Ok(__v) => __v, Err(__e) => return Err(From::from(__e)) });
+
+        if !self.live {
+            return Err(Error::Disconnected.into());
+        }
+        if let Err(err) = write_all(&mut self.io, packet).await {
+            if matches!(err, Error::WriteZero) {
+                return Err(err.into());
+            }
+
+            self.handle_disconnect();
+            return Err(err.into());
+        }
+        if let Err(err) = self.io.flush().await {
+
+            self.handle_disconnect();
+            return Err(Error::Transport(err).into());
+        }
+        self.session.runtime.note_outbound_activity(Instant::now());
+
+        Ok(None)
     }
 }
 
